@@ -83,3 +83,25 @@ c("tagged", PT, TG, r"^\s*pub fn ptr_eq\(self, other: Self\) -> bool \{", "Tagge
   "#[kani::ensures(|r| verif_ptr::post_ptr_eq(&self, &other, r))]")
 c("tagged", PT, None, r"^fn with_tag<T>\(ptr: \*mut T, tag: usize\) -> \*mut T \{", "pointers::with_tag",
   "#[kani::ensures(|r| verif_ptr::post_free_with_tag::<T>(ptr, tag, *r))]")
+
+# ---- C14: Epoch — data = 2 * value + pinned bit; successor is +1 on the value --------------------
+EP = "src/ebr_impl/epoch.rs"
+EI = r"^impl Epoch \{"
+c("epoch", EP, EI, r"^\s*pub\(crate\) fn starting\(\) -> Self \{", "Epoch::starting",
+  "#[kani::ensures(|r| verif_epoch::post_starting(*r))]")
+c("epoch", EP, EI, r"^\s*pub fn wrapping_sub\(self, rhs: Self\) -> isize \{", "Epoch::wrapping_sub",
+  "#[kani::ensures(|r| verif_epoch::post_wrapping_sub(self, rhs, *r))]")
+c("epoch", EP, EI, r"^\s*pub\(crate\) fn is_pinned\(self\) -> bool \{", "Epoch::is_pinned",
+  "#[kani::ensures(|r| verif_epoch::post_is_pinned(self, *r))]")
+c("epoch", EP, EI, r"^\s*pub\(crate\) fn pinned\(self\) -> Epoch \{", "Epoch::pinned",
+  "#[kani::ensures(|r| verif_epoch::post_pinned(self, *r))]")
+c("epoch", EP, EI, r"^\s*pub\(crate\) fn unpinned\(self\) -> Epoch \{", "Epoch::unpinned",
+  "#[kani::ensures(|r| verif_epoch::post_unpinned(self, *r))]")
+c("epoch", EP, EI, r"^\s*pub\(crate\) fn successor\(self\) -> Epoch \{", "Epoch::successor",
+  "#[kani::ensures(|r| verif_epoch::post_successor(self, *r))]")
+c("epoch", EP, EI, r"^\s*pub fn value\(self\) -> usize \{", "Epoch::value",
+  "#[kani::ensures(|r| verif_epoch::post_value(self, *r))]")
+
+# ---- C13: SealedBag::is_expired -------------------------------------------------------------------
+c("expired", "src/ebr_impl/internal.rs", r"^impl SealedBag \{", r"^\s*fn is_expired\(&self, global_epoch: Epoch\) -> bool \{", "SealedBag::is_expired",
+  "#[kani::ensures(|r| verif_internal::post_is_expired(self, global_epoch, *r))]")
